@@ -713,7 +713,8 @@ func (c *Ctx) ScatterIndexDiscipline(prop string) {
 			}
 		}
 	}
-	c.R.Floor(rule, "closures passed to Scatter", n, 6)
+	// two batch endpoints and the ruler each hand at least one closure to Scatter
+	c.R.Floor(rule, "closures passed to Scatter", n, 3)
 }
 
 // RulerKeyAgreement (C04.O5, dispatch side): the public key in the metadata handed to the rules is the PubKey of the very
